@@ -838,7 +838,11 @@ func (o *ImmutableArray) BinaryOp(op token.Token, rhs Object) (Object, error) {
 	if rhs, ok := rhs.(*ImmutableArray); ok {
 		switch op {
 		case token.Add:
-			return &Array{Value: append(o.Value, rhs.Value...)}, nil
+			// the result is mutable: it must not share the immutable
+			// array's backing storage
+			res := make([]Object, 0, len(o.Value)+len(rhs.Value))
+			res = append(res, o.Value...)
+			return &Array{Value: append(res, rhs.Value...)}, nil
 		}
 	}
 	return nil, ErrInvalidOperator
